@@ -3,7 +3,7 @@ sys.path.insert(0, os.path.dirname(os.path.abspath(__file__)))
 import seqfam, vlib
 
 ASSUME = ["greedy quantifiers only; ONE ROW PER MATCH; MEASURES MATCH_NUMBER(), FIRST(id), LAST(id), COUNT(*) identify a match",
-          "DEFINE conditions: v > c, v < c, v > PREV(v), v < PREV(v) (the latter two never on the pattern's first variable), or undefined (true)",
+          "DEFINE conditions: v > c, v < c, v > PREV(v), v < PREV(v) (the latter two never on the pattern's first variable), running SUM(v) <= c / COUNT(*) <= c over the match so far, or undefined (true)",
           "scenarios stay far below maxRunRows / maxRuns / maxPartitions and use no WITHIN; empty matches are not reported",
           "all matches are compared after Stop (flush), per partition in delivery order"]
 
@@ -38,7 +38,8 @@ PATTERNS = [  # (pattern, first variable(s) that must not use PREV-based DEFINE)
     seq(var("A"), q(var("B"), 1, 3), var("C")), seq(q(var("A"), 1, -1), var("B")), seq(var("A"), alt(var("B"), var("C"))), seq(var("A"), var("B"), var("C")),
     seq(var("S"), q(var("A"), 1, 3), var("E")),
 ]
-DEFKINDS = [{"k": "gt", "c": 0}, {"k": "gt", "c": 1}, {"k": "lt", "c": 2}, {"k": "up", "c": 0}, {"k": "down", "c": 0}, {"k": "true", "c": 0}]
+DEFKINDS = [{"k": "gt", "c": 0}, {"k": "gt", "c": 1}, {"k": "lt", "c": 2}, {"k": "up", "c": 0}, {"k": "down", "c": 0}, {"k": "true", "c": 0},
+            {"k": "sumle", "c": 3}, {"k": "sumle", "c": 5}, {"k": "cntle", "c": 2}]      # history-dependent: running aggregates over the match so far
 
 
 def vars_of(p, acc):
@@ -73,7 +74,8 @@ def mk(rng, interleave, nparts):
             d = dict(rng.choice(DEFKINDS))
         if d["k"] == "true": continue
         defs.append({"v": v, "k": d["k"], "c": d["c"] * 10000})
-        dsql.append({"gt": "%s AS v > %d" % (v, d["c"]), "lt": "%s AS v < %d" % (v, d["c"]), "up": "%s AS v > PREV(v, 1)" % v, "down": "%s AS v < PREV(v, 1)" % v}[d["k"]])
+        dsql.append({"gt": "%s AS v > %d" % (v, d["c"]), "lt": "%s AS v < %d" % (v, d["c"]), "up": "%s AS v > PREV(v, 1)" % v, "down": "%s AS v < PREV(v, 1)" % v,
+                     "sumle": "%s AS SUM(v) <= %d" % (v, d["c"]), "cntle": "%s AS COUNT(*) <= %d" % (v, d["c"])}[d["k"]])
     if not dsql:
         v = vs[0]; defs.append({"v": v, "k": "gt", "c": 0}); dsql.append("%s AS v > 0" % v)
     skip = rng.choice(["past", "past", "next"])
